@@ -1098,7 +1098,14 @@ pub fn gen_sort_tables(rng: &mut Rng, max_rows: usize) -> Vec<TableDef> {
                 r.push(match (ci, ty) {
                     (0, _) => Value::Int(rng.range(0, span) as i128),
                     (_, Ty::Text) => Value::Str(SORT_TEXT_POOL[rng.usize_below(SORT_TEXT_POOL.len())].to_string()),
-                    (_, Ty::Dbl) => Value::Float(rng.range(-4, 8) as f64 / 4.0),
+                    // doubles: small quarters, and clusters of close values that
+                    // agree in their upper 32 bits (positive, negative, large)
+                    (_, Ty::Dbl) => match rng.below(5) {
+                        0 | 1 => Value::Float(rng.range(-4, 8) as f64 / 4.0),
+                        2 => Value::Float(1.0 + rng.range(0, 6) as f64 / (1u64 << 40) as f64),
+                        3 => Value::Float(-(1.0 + rng.range(0, 6) as f64 / (1u64 << 40) as f64)),
+                        _ => Value::Float(4503599627370496.0 + rng.range(0, 6) as f64),
+                    },
                     (_, Ty::Bool) => Value::Bool(rng.chance(1, 2)),
                     _ => Value::Int(rng.range(-3, 3) as i128),
                 });
